@@ -38,6 +38,8 @@ type ghostState struct {
 
 	vfs *vfs
 
+	cancelChan *Chan
+
 	handles []*term.Term // symbolic values parked inside native structures (tagged handles)
 }
 
@@ -452,8 +454,22 @@ func (in *Interp) pollChan(ch *Chan, fr *frame) {
 	if ch.CloseAt < 0 {
 		return
 	}
-	if ch.Polls >= ch.CloseAt {
-		ch.Closed = true
+	// symbolic cancellation: at every poll the channel may turn out to be closed (once)
+	if !ch.Closed {
+		name := fmt.Sprintf("cancel#%d", ch.Polls)
+		b := in.X.input(name, 0)
+		if in.branch(b, name) {
+			ch.Closed = true
+			in.X.noteInput("cancel.armed", 1)
+			w := uint64(0)
+			if ch.Counter != nil {
+				if u, ok := (*ch.Counter).(uint64); ok {
+					w = u
+				}
+			}
+			in.X.noteInput("cancel.writes", w)
+			in.X.noteInput("cancel.poll", uint64(ch.Polls))
+		}
 	}
 	ch.Polls++
 	if fr != nil {
